@@ -11,6 +11,8 @@ import (
 	"fmt"
 	"os"
 	"unicode/utf8"
+
+	_ "vh/vstub"
 )
 
 var _ = utf8.RuneError
